@@ -71,7 +71,29 @@ def walk(v):
         return ('T',) + tuple(walk(x) for x in v)
     if isinstance(v, dict):
         return ('M', [(k, walk(x)) for k, x in v.items()])
+    if type(v).__module__.startswith('ZConfig.components') and hasattr(v, '__dict__'):
+        # factory objects of the shipped components: class and public data attributes
+        if _depth[0] > 6:
+            return ('O', type(v).__name__)
+        _depth[0] += 1
+        try:
+            items = []
+            for a in sorted(vars(v)):
+                x = getattr(v, a)
+                if a.startswith('_') or callable(x) and not type(x).__module__.startswith('ZConfig'):
+                    continue
+                if a == 'instance':
+                    continue
+                items.append((a, walk(x)))
+            return ('O', type(v).__name__, items)
+        finally:
+            _depth[0] -= 1
+    if type(v).__module__ in ('logging',) or type(v).__name__ in ('type', 'function'):
+        return ('O', getattr(v, '__name__', type(v).__name__))
     return v
+
+
+_depth = [0]
 
 
 _SCHEMA_CACHE = {}
@@ -117,13 +139,15 @@ class mem_resources:
         import ZConfig
         import ZConfig.loader as L
         self.L = L
-        self.orig = L.BaseLoader.openResource
+        self.orig = orig = L.BaseLoader.openResource
         store = self.store
 
         def openResource(loader, url):
             url = str(url)
             if url in store:
                 return loader.createResource(common.make_file(store[url]), url)
+            if not url.startswith('http://m/'):
+                return orig(loader, url)        # package: and file: resources stay real
             raise ZConfig.ConfigurationError('error opening URL %s: not found' % url, url)
         L.BaseLoader.openResource = openResource
         return self
@@ -213,6 +237,12 @@ class TextMixin:
                         s = s + inp['f%dl%dp%d' % (part[1], part[2], part[3])]
                     elif part[0] == '=':
                         s = s + inp['h_' + part[1]]
+                    elif part[0] == '=U':
+                        s = s + inp['h_' + part[1]].upper()
+                    elif part[0] == '=L':
+                        s = s + inp['h_' + part[1]].lower()
+                    elif part[0] == '=S':
+                        s = s + inp['h_' + part[1]].swapcase()
                     elif len(part) > 2:
                         s = s + inp['h_' + part[2]]
                     else:
